@@ -376,9 +376,17 @@ def observe(f):
     return ('ok', Fraction(x))
 
 
-def obs_lit(r):
+def is_const_nonzero(v):
+    return len(v) > 0 and v[0] != 0 and all(x == v[0] for x in v)
+
+
+def obs_lit(r, mask=None):
+    """mask: set of (i, j) matrix entries that are not compared"""
     if r[0] == 'err':
         return '(Raises %s)' % r[1]
+    if isinstance(r[1], list) and mask:
+        return '(Ok (OMasked %s))' % listlit([listlit(['None' if (i, j) in mask else '(Some %s)' % qlit(x) for j, x in enumerate(row)])
+                                                for i, row in enumerate(r[1])])
     if isinstance(r[1], list):
         return '(Ok (OMatrix %s))' % listlit([listlit([qlit(x) for x in row]) for row in r[1]])
     return '(Ok (OScalar %s))' % qlit(r[1])
